@@ -104,3 +104,10 @@ func bNode(m *bMon, exec func(ctx context.Context, item Result) (Result, error))
 			return "done", nil
 		})
 }
+
+func b2i(b bool) int {
+	if b {
+		return 1
+	}
+	return 0
+}
